@@ -63,6 +63,35 @@ var machComponents = map[string]string{
 }
 
 var specs = map[string]*Spec{
+	"C09": {
+		ID: "C09", Title: "Disks are arrays of independent 4096-byte registers; Mem == File",
+		Driver: "./drivers/machdrv", ModFile: "go.mod",
+		Rewrites: machRewrites(), Flavours: []string{"plain"},
+		Quick:    TierParams{Runs: 16000, Budget: 5 * time.Minute},
+		Thorough: TierParams{Budget: 10 * time.Minute},
+		Level:    "exploration",
+		Rule: "fault-free configuration of the disk simulator: one client, a plan of 1-40 Read/ReadTo/Write/Size/Barrier calls on a disk of 0,1,2,3,8 or 100 blocks with boundary addresses (size-1,size,size+1,2^32,2^52,2^64-1), wrong-sized write buffers and aliasing probes (scribble on the buffer after Write and on the slice returned by Read, one reusable buffer, dirty ReadTo buffers); " +
+			"the same plan is executed on 8 systems (disk/async_disk x Mem/File-on-simulated-kernel x direct/global wrappers) and every tenth plan also on the real Linux kernel, each compared operation by operation with the register-array model and a neighbour scan after every write. " +
+			"Non-trivial: some read returned a block produced by an earlier write of the plan; distinct = distinct plans (hash of the plan).",
+		Components:   machComponents,
+		Assumptions:  []string{"single client, no faults, no crash: this is the fault-free configuration; faults and reopen belong to C11, concurrency to C10", "ReadTo buffers of other sizes than 4096 are not generated (the property constrains only wrong-sized write buffers)"},
+		ExpectProbes: []string{"scribble_after_write", "scribble_after_read", "real_kernel_runs"},
+	},
+	"C11": {
+		ID: "C11", Title: "Disk contents persist across reopen; I/O failures are never silent",
+		Driver: "./drivers/machdrv", ModFile: "go.mod",
+		Rewrites: machRewrites(), Flavours: []string{"plain"},
+		Quick:    TierParams{Runs: 1500, Budget: 5 * time.Minute},
+		Thorough: TierParams{Budget: 15 * time.Minute},
+		Level:    "fault_enumeration",
+		Rule: "three batches by plan index mod 3. (a) reopen: prior image absent or of length 0,1,n,n*4096-1,4095,4096,4097,n*4096,n*4096+1,(n+3)*4096,random bytes (n = requested blocks), then 1-4 rounds of NewFileDisk(n_i)/operations/Close with n_i varying; after every open Size, every retained whole block and every new block (must be zero, read with Read and with ReadTo into a dirty buffer) are checked; every 15th plan on the real kernel. " +
+			"(b) power crash: for a seeded plan with Barriers on an existing image, EVERY crash point (before each system call of the round) is executed, survivors chosen per the durability model, then reopen and compare every block not written since the last completed Barrier. " +
+			"(c) single-fault enumeration: for a seeded plan EVERY system call x EVERY applicable fault (errno on openat/fstat/ftruncate/pread/pwrite/fsync/close; short pread 0/512; short pwrite 0/512; ENOSPC) is executed; the operation must panic/return an error or all later data must be exact. " +
+			"Non-trivial: (a) a reopen or prior image was involved, (b,c) the crash/fault fired inside an operation; distinct = distinct concrete plans (plan + fault position/kind).",
+		Components:   machComponents,
+		Assumptions:  []string{"crash model: durable = fsynced data + journal prefix; unsynced writes persist in any subset, the last possibly torn at 512 bytes; real ext4 behaviour cannot be observed in this VM", "the image file's directory entry is durable before the crash batch starts (fsync of the parent directory is outside C11)"},
+		ExpectProbes: []string{"batch_reopen", "batch_crash", "batch_fault", "crash", "crash_after_barrier", "crash_lost_unsynced_write", "real_kernel_runs"},
+	},
 	"C10": {
 		ID: "C10", Title: "Concurrent disk operations are linearizable per block",
 		Driver: "./drivers/machdrv", ModFile: "go.mod",
